@@ -24,7 +24,9 @@ def scenarios(tier):
            dict(name="optional-sections", fn="optional", params={}, cost=1)]
     # spelling details: how the version is written, .yml suffix, '?' wildcard, extra_forcing
     for k, (ver, suffix, wild) in enumerate([("2", ".yaml", "*"), ("2.0", ".yml", "?"), ('"2.0"', ".yaml", "*"), (None, ".yml", "?")]):
-        out.append(dict(name=f"variant-{k}", fn="run", params=dict(extra=False, version=ver, suffix=suffix, wild=wild, extra_forcing=True), cost=10))
+        # variants 1 and 3 use the legacy vocabulary of the shipped version-1 examples (module ladim.gridforce.ROMS, ibm_forcing, numrec)
+        legacy = dict(v1module="ladim.gridforce.ROMS", v1forcingword="ibm_forcing", numrec=True) if k % 2 else {}
+        out.append(dict(name=f"variant-{k}", fn="run", params=dict(extra=False, version=ver, suffix=suffix, wild=wild, extra_forcing=True, **legacy), cost=10))
     out.append(dict(name="runs-equal", fn="runs", params={}, cost=10))
     return out
 
@@ -196,6 +198,8 @@ def run(W, p):
     if flags["has_pvars"]:
         y2 += ["        super: {encoding: {datatype: f4}, attributes: {long_name: number of individuals}}"]
     y2 += ["    ncargs: {data_model: NETCDF3_CLASSIC}"]
+    if p.get("numrec"):
+        y2 += [f"    numrec: {_tok(31)}", "    skip_initial: true"]
 
     # ---------------------------------------------------------------- version 2, TOML
     def tq(s):
@@ -220,7 +224,7 @@ def run(W, p):
         t2 += ["continuous = true", f'release_frequency = [{freqv}, "h"]']
     if flags["has_ibm"]:
         t2 += ["[ibm]", 'module = "my_ibm"', f"lifetime = {ibmopt}"]
-    t2 += ["[output]", 'filename = "out.nc"', f'output_period = [{outv}, "h"]', 'ncargs = {data_model = "NETCDF3_CLASSIC"}',
+    t2 += ["[output]", 'filename = "out.nc"', f'output_period = [{outv}, "h"]', 'ncargs = {data_model = "NETCDF3_CLASSIC"}'] + ([f"numrec = {_tok(31)}", "skip_initial = true"] if p.get("numrec") else []) + [
            "[output.instance_variables]",
            'pid = {encoding = {datatype = "i4"}, attributes = {long_name = "particle identifier"}}',
            'X = {encoding = {datatype = "f4"}, attributes = {long_name = "particle X-coordinate"}}',
@@ -233,13 +237,13 @@ def run(W, p):
     if flags["has_ref"]:
         y1.append(f"    reference_time: {ref}")
     y1 += ["files:", "    particle_release_file: rel.rls", "    output_file: out.nc"]
-    y1 += ["gridforce:", "    module: ladim1.gridforce.ROMS", f"    input_file: {forcing_name}"]
+    y1 += ["gridforce:", f"    module: {p.get('v1module', 'ladim1.gridforce.ROMS')}", f"    input_file: {forcing_name}"]
     if flags["has_grid"]:
         y1.append(f"    gridfile: {gridfile}")
         if flags["has_subgrid"]:
             y1.append(f"    subgrid: [{', '.join(map(str, sub))}]")
     if flags["extra_forcing"]:
-        y1.append("    extra_forcing: [temp, salt]")
+        y1.append(f"    {p.get('v1forcingword', 'extra_forcing')}: [temp, salt]")
     y1 += ["particle_release:", f"    variables: [{', '.join(relvars)}]"]
     if flags["continuous"]:
         y1 += ["    release_type: continuous", f"    release_frequency: [{freqv}, h]"]
@@ -247,7 +251,7 @@ def run(W, p):
         y1 += ["    particle_variables: [super, farm]", "    farm: int"]  # super has no converter: defaults to float
     if flags["has_ibm"]:
         y1 += ["ibm:", "    ibm_module: my_ibm", "    variables: [age]", f"    lifetime: {ibmopt}"]
-    y1 += ["output_variables:", f"    outper: [{outv}, h]", "    instance: [pid, X]", "    particle: [" + ("super" if flags["has_pvars"] else "") + "]",
+    y1 += ["output_variables:", f"    outper: [{outv}, h]"] + ([f"    numrec: {_tok(31)}", "    skip_initial: true"] if p.get("numrec") else []) + [ "    instance: [pid, X]", "    particle: [" + ("super" if flags["has_pvars"] else "") + "]",
            "    pid: {ncformat: i4, long_name: particle identifier}", "    X: {ncformat: f4, long_name: particle X-coordinate}"]
     if flags["has_pvars"]:
         y1 += ["    super: {ncformat: f4, long_name: number of individuals}"]
